@@ -795,7 +795,7 @@ func mustHaveActivityActorsMatchObjectActors(c context.Context,
 		}
 		t, err := streams.ToType(c, m)
 		if err != nil {
-			return err
+			return fmt.Errorf("cannot resolve the dereferenced object: %s", err)
 		}
 		ac, ok := t.(actorer)
 		if !ok {
